@@ -27,7 +27,7 @@ def _preprocess():
     inc = os.path.join(B.REPO, "include")
     hs = sorted(h for h in os.listdir(os.path.join(inc, "gmssl")) if h.endswith(".h") and h not in SKIP_HEADERS)
     src = "".join('#include <gmssl/%s>\n' % h for h in hs)
-    r = subprocess.run(["gcc", "-E", "-P", "-I", inc, "-x", "c", "-"], input=src, capture_output=True, text=True)
+    r = subprocess.run(["gcc", "-E", "-P", "-I", inc] + B.defines() + ["-x", "c", "-"], input=src, capture_output=True, text=True)
     if r.returncode != 0:
         raise RuntimeError("preprocess failed: " + r.stderr[:2000])
     return r.stdout, hs
@@ -286,7 +286,7 @@ def helper():
         return _helper
     P = parsed()
     src = _helper_source(P)
-    h = hashlib.sha256(src.encode()).hexdigest()[:16]
+    h = hashlib.sha256((src + " ".join(B.defines())).encode()).hexdigest()[:16]
     ndir = os.path.join(B.BUILD, "native")
     so = os.path.join(ndir, "vhelper_%s.so" % h)
     if not os.path.exists(so):
@@ -302,11 +302,11 @@ def helper():
                 for i, (s, f) in enumerate(OFFSETS):
                     probe = "%s\nsize_t x(void){return offsetof(%s,%s);}\n" % (
                         "#include <stdio.h>\n#include <stddef.h>\n" + "".join('#include <gmssl/%s>\n' % hh for hh in P["headers"]), s, f)
-                    r = subprocess.run(["gcc", "-fsyntax-only", "-I", inc, "-x", "c", "-"], input=probe,
+                    r = subprocess.run(["gcc", "-fsyntax-only", "-I", inc] + B.defines() + ["-x", "c", "-"], input=probe,
                                        capture_output=True, text=True)
                     if r.returncode == 0:
                         defs.append("-DVH_HAS_%d" % i)
-                r = subprocess.run(["gcc", "-O1", "-g", "-fPIC", "-shared", "-I", inc] + defs + ["-o", so + ".tmp", cpath],
+                r = subprocess.run(["gcc", "-O1", "-g", "-fPIC", "-shared", "-I", inc] + B.defines() + defs + ["-o", so + ".tmp", cpath],
                                    capture_output=True, text=True)
                 if r.returncode != 0:
                     raise RuntimeError("vhelper build failed:\n" + r.stderr[:4000])
